@@ -128,7 +128,7 @@ inline int Classify(const Soup& s, const V3& p, double guard, double* wOut = nul
   double w = Winding(s, p);
   if (wOut) *wOut = w;
   long r = std::lround(w);
-  if (std::abs(w - r) > 1e-6) return -2;
+  if (std::abs(w - r) > 1e-3) return -2;  // cancellation noise near edge lines reaches 1e-6; integers stay separated
   if (r == 0) return 0;
   if (r == 1) return 1;
   return -2;
